@@ -251,6 +251,38 @@ def chain(B, G, kind, n, h, a=None, kmax=3):
         o1 = st.sample(1, initial_state=v1, overwrite=ow)
         G.fact("sample(1-D,overwrite=%s).shape" % ow, tuple(B.scalars(o1).shape) == (n,) and tuple(B.scalars(v1).shape) == (n,), "returned %s, caller's %s" % (tuple(B.scalars(o1).shape), tuple(B.scalars(v1).shape)))
         G.fact("sample(1-D,overwrite=%s).values" % ow, [float(x) for x in B.scalars(o1).reshape(-1)] == [float(x) for x in rows[-1]], "last visible outcome")
+    # more chains than basis states (so several chains sit in the same visible state): every chain gets its own draw of every layer
+    big_rows = [rows[i % len(rows)] for i in range(len(rows) + 2)]
+    bigt = C.rows_tensor(B, big_rows)
+    nbig = len(big_rows)
+    hbig = [[(i + j) % 2 for j in range(rbm.num_hidden)] for i in range(nbig)]  # duplicates of a visible state get DIFFERENT hidden outcomes
+    abig = [[(i + j + 1) % 2 for j in range(a)] for i in range(nbig)] if kind == "mixed" else None
+    vbig = [[(i * (j + 1)) % 2 for j in range(n)] for i in range(nbig)]
+    sc.calls.clear()
+    sc.queue = [hbig] + ([abig] if kind == "mixed" else []) + [vbig]
+    obig = rbm.gibbs_steps(1, bigt)
+    G.fact("many_chains.draw_shapes", len(sc.calls) == per and tuple(np.shape(sc.calls[0])) == (nbig, rbm.num_hidden) and tuple(np.shape(sc.calls[-1])) == (nbig, n),
+           [tuple(np.shape(c_)) for c_ in sc.calls])
+    if len(sc.calls) == per and tuple(np.shape(sc.calls[-1])) == (nbig, n):
+        if kind == "mixed":
+            pv_ref = B.scalars(rbm.prob_v_given_ha(C.rows_tensor(B, hbig), C.rows_tensor(B, abig)))
+        else:
+            pv_ref = B.scalars(rbm.prob_v_given_h(C.rows_tensor(B, hbig)))
+        for i in range(nbig):
+            G.eq("many_chains.p_v[%d,0]" % i, sc.calls[-1][i, 0], pv_ref[i, 0])
+        G.fact("many_chains.result", [[float(x) for x in r_] for r_ in B.scalars(obig)] == [[float(x) for x in r_] for r_ in vbig], "last visible outcome per chain")
+    # results the caller still holds survive later non-overwriting calls of the same shape (chains continued across calls)
+    x0 = C.rows_tensor(B, [rows[-1], rows[0]])
+    o1s, o2s = rand_bits(n), rand_bits(n)
+    sc.calls.clear()
+    sc.queue = [rand_bits(rbm.num_hidden)] + ([rand_bits(a)] if kind == "mixed" else []) + [o1s]
+    r1 = st.sample(1, initial_state=x0, overwrite=False)
+    sc.queue = [rand_bits(rbm.num_hidden)] + ([rand_bits(a)] if kind == "mixed" else []) + [o2s]
+    r2 = st.sample(1, initial_state=r1, overwrite=False)
+    G.fact("held_results.distinct_objects", r1 is not x0 and r2 is not r1, "each non-overwriting call returns a new tensor")
+    G.fact("held_results.first_result_survives", [[float(x) for x in r_] for r_ in B.scalars(r1)] == [[float(x) for x in r_] for r_ in o1s], "first result after the second call")
+    G.fact("held_results.second_result", [[float(x) for x in r_] for r_ in B.scalars(r2)] == [[float(x) for x in r_] for r_ in o2s], "second result")
+    G.fact("held_results.start_untouched", [[float(x) for x in r_] for r_ in B.scalars(x0)] == [[float(x) for x in r_] for r_ in (rows[-1], rows[0])], "start state")
     # start state with extra leading dimensions [replica, chain, site]: every unit is still drawn from its exact conditional
     init3 = C.rows_tensor(B, [rows[-1], rows[0]]).unsqueeze(1).clone()
     hb, vb = rand_bits(rbm.num_hidden), rand_bits(n)
